@@ -3,9 +3,10 @@
    operand produces returns the operand unchanged; StringBuilder.Print/Printf inline the inner
    printer's result unchanged; the concatenation of well-formed, line-safe redactables is
    again one (closure, which makes any depth of re-printing and joining stay in the class),
-   and Redact / StripMarkers distribute over it.  That the evaluator issues exactly that
-   history for RedactableString/Bytes operands under every directive and inside containers
-   is decided by the correspondence and the black-box equalities (_partial). *)
+   and Redact / StripMarkers distribute over it.  The evaluator is proved to issue exactly that
+   history for a RedactableString/Bytes operand of Sprint and of Sprintf under %v / %s
+   (C08_sprint_of_a_redactable_is_identity, C08_sprintf_...); under widths, inside containers
+   and under wrappers it is decided by the correspondence and the black-box equalities. *)
 From Redact Require Import Bytes Tokens Utf8 Markers Buffer Ops BufInv LBuf Printer Api.
 From Redact Require Import TokensP MarkersP BufInvP BufContentP ComposeP RoutesP.
 Import List ListNotations.
@@ -35,6 +36,25 @@ Proof.
   intros a b Ha Hb. apply good_redactable in Ha. split; [now apply concat_redact | now apply concat_strip].
 Qed.
 Print Assumptions C08_redact_and_strip_distribute.
+
+(* end to end through the evaluator: Sprint(r) = r, Sprintf("%v"/"%s", r) = r for every
+   redactable string / byte slice r whose last rune is valid, at every fuel *)
+Theorem C08_sprint_of_a_redactable_is_identity : forall k env r o, last_invalid r = false ->
+  (sprint (S (S k)) env [VRS r] = ROk o \/ sprint (S (S k)) env [VRB r] = ROk o) -> o_bytes o = r.
+Proof. exact sprint_redactable_identity. Qed.
+Print Assumptions C08_sprint_of_a_redactable_is_identity.
+
+Theorem C08_sprintf_of_a_redactable_is_identity : forall k env d r o, In d reprint_directives -> last_invalid r = false ->
+  sprintf (S (S (S k))) env d [VRS r] = ROk o -> o_bytes o = r.
+Proof. exact sprintf_redactable_identity. Qed.
+Print Assumptions C08_sprintf_of_a_redactable_is_identity.
+
+(* re-printing the result of any print call reproduces it *)
+Theorem C08_sprint_idempotent : forall fuel k env a o o', sprint fuel env a = ROk o -> last_invalid (o_bytes o) = false ->
+  sprint (S (S k)) env [VRS (o_bytes o)] = ROk o' -> o_bytes o' = o_bytes o.
+Proof. exact sprint_idempotent. Qed.
+Print Assumptions C08_sprint_idempotent.
+
 
 Example C08_nonvacuous :
   let r := [97; 226;128;185; 98; 226;128;186; 10; 226;128;185; 99; 226;128;186]%N in
